@@ -421,6 +421,26 @@ def run_unary(case):
             ref[n] = A[idx]
         c.cmp("ravel", "ravel of leading tensor axes (C order)", R, ref)
         c.cmp("reshape", "reshape back", fm.reshape(R, (d, d, d, d)), A)
+        # the definition is a statement about VALUES: the same tensors handed over in other memory layouts (Fortran order, a
+        # transposed view, a strided view), second-order tensors and non-square leading axes; reshape judged directly (not by a
+        # round trip), inputs unchanged
+        for tshape in ((d, d), (2, 3) if d > 1 else (1, 2), (d, d, d, d)):
+            B = generic(tshape + (2, 3), seed, 91 + len(tshape))
+            refB = np.zeros((int(np.prod(tshape)), 2, 3))
+            for n, idx in enumerate(itertools.product(*[range(k_) for k_ in tshape])):
+                refB[n] = B[idx]
+            lays = {"C": np.ascontiguousarray(B), "F": np.asfortranarray(B), "transposed-view": np.ascontiguousarray(B.transpose(tuple(range(B.ndim))[::-1])).transpose(tuple(range(B.ndim))[::-1]),
+                    "strided": np.repeat(B, 2, axis=-1)[..., ::2]}
+            for ll, Bl in lays.items():
+                keep = Bl.copy()
+                c.cmp(f"ravel/shape={tshape}/layout={ll}", "ravel: item N*i+j of the result is the (i, j) component of the input, whatever the memory layout", fm.ravel(Bl), refB)
+                c.trans += 1
+                if not np.array_equal(Bl, keep):
+                    c.bad(f"ravel/shape={tshape}/layout={ll}/inputs", "inputs modified", "modified", "unchanged")
+            flats = {"C": np.ascontiguousarray(refB), "F": np.asfortranarray(refB), "strided": np.repeat(refB, 2, axis=-1)[..., ::2]}
+            for ll, Rl in flats.items():
+                c.cmp(f"reshape/shape={tshape}/layout={ll}", "reshape: component (i, j) of the result is item N*i+j of the input, whatever the memory layout", fm.reshape(Rl, tshape), B)
+                c.trans += 1
     return c.result(dict(case=case["key"], dim=d))
 
 
